@@ -27,7 +27,8 @@ import (
 //                                     genuine blob, 3 absurd length prefix, 4 other message type, 5 empty, 6 random
 //                                     bytes, 7 bulk of 95..154 small junk blobs (forces a second Get chunk)
 //       script(A=height off,B=kind,C) one more fetch outcome for that height (not-found claim, future, listing
-//                                     error, error on Get chunk C)
+//                                     error, error on Get chunk C%2; (C>>1)%5 picks the error: generic, wrapping
+//                                     context.DeadlineExceeded / the DA deadline error / ErrTxTimedOut, or a call that hangs until the fetch timeout)
 //       retrieve(A)                   make A%4 more DA heights exist, signal the loop, let it run until idle
 
 func c09Junk(kind int64, c int64, genuine []byte) [][]byte {
@@ -149,7 +150,7 @@ func c09Body(t *testing.T, s *sim.Scn, o *sim.Outcome) {
 		case "script":
 			h := first + uint64(op.A%8)
 			k := sim.ReadKind(1 + op.B%4)
-			da.ReadScript[h] = append(da.ReadScript[h], sim.ReadOutcome{Kind: k, Chunk: int(op.C % 2)})
+			da.ReadScript[h] = append(da.ReadScript[h], sim.ReadOutcome{Kind: k, Chunk: int(op.C % 2), Flavor: int(op.C>>1) % 5})
 		}
 	}
 	callsSeen := 0
@@ -364,7 +365,7 @@ func c09Gen(r *rand.Rand, tier string) *sim.Scn {
 	}
 	ns := r.IntN(12)
 	for i := 0; i < ns; i++ {
-		s.Ops = append(s.Ops, sim.Op{K: "script", A: r.Int64N(8), B: r.Int64N(4), C: r.Int64N(2)})
+		s.Ops = append(s.Ops, sim.Op{K: "script", A: r.Int64N(8), B: r.Int64N(4), C: r.Int64N(10)})
 	}
 	nr := 1 + r.IntN(12)
 	for i := 0; i < nr; i++ {
